@@ -13,6 +13,22 @@ def main(path):
     for w in rp.get("witnesses", []):
         print("detail:", w.get("detail"))
         r = w.get("replay")
+        if r and "fuzz_input_hex" in r:
+            import os, subprocess
+            from .checks import C04
+            rt.prepare([])
+            exe = C04.fuzz_exe(rt.TREE)
+            d = rt.TREE.scratch("replay")
+            f = os.path.join(d, "input")
+            with open(f, "wb") as fh:
+                fh.write(bytes.fromhex(r["fuzz_input_hex"]))
+            p = subprocess.run([exe, f], stdout=subprocess.PIPE, stderr=subprocess.STDOUT, text=True,
+                               env=dict(os.environ, **C04.FUZZ_ENV))
+            print(p.stdout[-3000:])
+            rc = rc or (1 if p.returncode else 0)
+            import shutil
+            shutil.rmtree(d, ignore_errors=True)
+            continue
         if not r or "lines" not in r:
             print("  (no worker lines recorded: %s)" % (r,))
             continue
